@@ -211,6 +211,9 @@ class Interp:
                 ovf = frozenset([False]) if lo >= 0 else (frozenset([True]) if hi < 0 else frozenset([True, False]))
                 iv = ("int", max(lo, 0), max(hi, 0))
                 val = ("tuple", (iv, ("bool", ovf))) if op == "SubWithOverflow" else iv
+        elif k == "agg" and rv.get("ak") == "tuple":
+            # arguments of a local closure call travel as a tuple
+            val = ("tuple", tuple(self.operand(st, o) for o in rv["ops"]))
         elif k == "un" and rv["op"] == "Not":
             a = self.operand(st, rv["a"])
             if a[0] == "bool":
